@@ -401,6 +401,18 @@ def span_rule(rep, u, fname="http_parse_req_line"):
                    key(strip_casts(x["x"])).startswith(out + "->") and fn.pos_dominates(span_store, pos) and pos != span_store and
                    key(strip_casts(x["x"])) not in ("%s->proto_ver" % out,)]
     last_comp = {p[0] for p in comp_stores}
+    # names for the span: the fields themselves and locals copied from / into them
+    def aliases(field):
+        out_ = {"%s->%s" % (out, field)}
+        for _p, _r, x, _ps in fn.nodes():
+            if x.get("k") == "bin" and x["op"] == "=":
+                l, r = key(strip_casts(x["x"])), key(strip_casts(x["y"]))
+                if l in out_ and strip_casts(x["y"]).get("k") == "ref":
+                    out_.add(r)
+                if r in out_ and strip_casts(x["x"]).get("k") == "ref":
+                    out_.add(l)
+        return out_
+    a_buf, a_size = aliases("uri"), aliases("uri_size")
     n = 0
     per = 0
     for pos, root, c, ps in fn.calls(set(SEARCHES)):
@@ -415,7 +427,7 @@ def span_rule(rep, u, fname="http_parse_req_line"):
         per += 1
         inst = "span:%s#%d" % (c["fn"], per)
         desc = "the search at line %s that delimits a component of the request target is bounded by the target span" % c.get("ln")
-        if buf == "%s->uri" % out and size == "%s->uri_size" % out:
+        if buf in a_buf and size in a_size:
             rep.proved("R-SPAN", fn, inst, desc, "%s(%s, %s)" % (c["fn"], buf, size), c.get("ln"))
         else:
             rep.violated("R-SPAN", fn, inst, desc, "it searches (%s, %s): a delimiter behind the target is found, the component reaches outside "
